@@ -151,10 +151,18 @@ def c10(sc, V):
             if changed or not same:
                 f.append({"sig": "conflicting-request-had-effect", "step": s.n,
                           "msg": "%s arrived while %s was in flight and changed something" % (s.cmd(), s.before.slot)})
+            # the operation in flight only advances on timer wakes: a request step cannot end it, so the slot it
+            # holds must still be held afterwards (a refused request must not free somebody else's slot)
+            if s.snap.slot != s.before.slot:
+                f.append({"sig": "refused-request-changed-slot", "step": s.n,
+                          "msg": "%s arrived while %s was in flight; afterwards the slot is %s" % (s.cmd(), s.before.slot, s.snap.slot)})
             for r in s.of("rep"):
                 if r[3] == "ok" and not ("singleton" in r[5]):
                     f.append({"sig": "conflicting-request-accepted", "step": s.n,
                               "msg": "%s answered ok while %s was in flight" % (s.cmd(), s.before.slot)})
+        if s.kind() == "check" and s.before.slot is not None and not s.before.blocked and s.snap.slot != s.before.slot:
+            f.append({"sig": "refused-request-changed-slot", "step": s.n,
+                      "msg": "periodic check arrived while %s was in flight; afterwards the slot is %s" % (s.before.slot, s.snap.slot)})
     return f
 
 
@@ -539,7 +547,7 @@ def c02(sc, V):
             rm_pending = []
         # stopped stays stopped
         enabling = s.kind() == "start" or (s.kind() == "sig" and s.op[1] == "reload") or \
-            s.cmd() in ("start", "restart", "reload", "add", "set", "reloadconfig") or \
+            s.cmd() in ("start", "restart", "reload", "add", "reloadconfig") or \
             (s.kind() == "wake" and s.before.slot in STARTISH)
         if not enabling:
             for l in s.lines:
